@@ -391,3 +391,1080 @@ Proof.
   - apply orb_true_iff in HG. destruct HG; lia.
   - apply negb_true_iff in HF. right; right. lia.
 Qed.
+
+(* ------------------------------------------------------------------ *)
+(* Part B: commit_of reads prefixes only; parents / add positions      *)
+
+Lemma commit_of_ext c o h lA lB lA' lB' nA nB :
+  firstn nA lA = firstn nA lA' -> firstn nB lB = firstn nB lB' ->
+  commit_of c o h lA lB nA nB = commit_of c o h lA' lB' nA nB.
+Proof. intros EA EB. unfold commit_of. rewrite EA, EB. reflexivity. Qed.
+
+Lemma commit_wf_ext lA lB lA' lB' nA nB :
+  firstn nA lA = firstn nA lA' -> firstn nB lB = firstn nB lB' ->
+  commit_wf lA lB nA nB = commit_wf lA' lB' nA nB.
+Proof. intros EA EB. unfold commit_wf. rewrite EA, EB. reflexivity. Qed.
+
+Lemma firstn_app_le {A} n (l e : list A) : (n <= length l)%nat -> firstn n (l ++ e) = firstn n l.
+Proof.
+  intros HL. rewrite firstn_app. replace (n - length l)%nat with 0%nat by lia.
+  cbn. apply app_nil_r.
+Qed.
+
+Lemma firstn_prefix {A} n (l e g : list A) : l ++ e = g -> (n <= length l)%nat ->
+  firstn n l = firstn n g.
+Proof. intros <- HL. symmetry. apply firstn_app_le. exact HL. Qed.
+
+Lemma removes_of_app a b : removes_of (a ++ b) = removes_of a ++ removes_of b.
+Proof.
+  induction a as [|u a IH]; cbn; [reflexivity|]. destruct u; cbn; rewrite IH; reflexivity.
+Qed.
+
+Lemma parents_app a b : parents (a ++ b) = parents a ++ parents b.
+Proof. unfold parents. rewrite removes_of_app, map_app. reflexivity. Qed.
+
+Lemma parents_firstn_in n l i : In i (parents (firstn n l)) -> In i (parents l).
+Proof.
+  intros HI. rewrite <- (firstn_skipn n l), parents_app. apply in_or_app. left. exact HI.
+Qed.
+
+Lemma nodupb_iff l : nodupb l = true <-> NoDup l.
+Proof.
+  induction l as [|x l IH]; cbn.
+  - split; [constructor|reflexivity].
+  - rewrite andb_true_iff, negb_true_iff, IH. split.
+    + intros [HE HN]. constructor; [|exact HN]. apply existsb_eqb_false. exact HE.
+    + intros HN. inversion HN as [|? ? HNI HN']; subst. split; [|exact HN'].
+      destruct (existsb (Nat.eqb x) l) eqn:HE; [|reflexivity].
+      apply existsb_eqb_in in HE. contradiction.
+Qed.
+
+Lemma nodup_app_l {A} (a b : list A) : NoDup (a ++ b) -> NoDup a.
+Proof.
+  induction a as [|x a IH]; intros HN; [constructor|].
+  cbn in HN. inversion HN as [|? ? HNI HN']; subst. constructor.
+  - intros HI. apply HNI. apply in_or_app. left. exact HI.
+  - apply IH. exact HN'.
+Qed.
+
+Lemma nodup_snoc {A} (a : list A) x : NoDup a -> ~ In x a -> NoDup (a ++ [x]).
+Proof.
+  induction a as [|y a IH]; intros HN HI; cbn; [constructor; [intros []|constructor]|].
+  inversion HN as [|? ? HNI HN']; subst. constructor.
+  - intros HI'. apply in_app_or in HI'. destruct HI' as [HI'|[E|[]]]; [contradiction|].
+    apply HI. left. symmetry. exact E.
+  - apply IH; [exact HN'|]. intros HI'. apply HI. right. exact HI'.
+Qed.
+
+Lemma nodup_parents_firstn n l : NoDup (parents l) -> NoDup (parents (firstn n l)).
+Proof.
+  intros HN. rewrite <- (firstn_skipn n l), parents_app in HN. eapply nodup_app_l. exact HN.
+Qed.
+
+Lemma add_pos_from_app l e : forall i pos a,
+  add_pos_from l i pos = Some a -> add_pos_from (l ++ e) i pos = Some a.
+Proof.
+  induction l as [|u l IH]; intros i pos a HP; cbn in *; [discriminate|].
+  destruct u; try (apply IH; exact HP).
+  destruct i; [exact HP|apply IH; exact HP].
+Qed.
+
+Lemma add_pos_app l e i a : add_pos l i = Some a -> add_pos (l ++ e) i = Some a.
+Proof. apply add_pos_from_app. Qed.
+
+Lemma add_pos_from_bound l : forall i pos a,
+  add_pos_from l i pos = Some a -> (pos <= a < pos + length l)%nat.
+Proof.
+  induction l as [|u l IH]; intros i pos a HP; cbn in *; [discriminate|].
+  destruct u; try (apply IH in HP; lia).
+  destruct i; [inversion HP; lia|apply IH in HP; lia].
+Qed.
+
+Lemma add_pos_bound l i a : add_pos l i = Some a -> (a < length l)%nat.
+Proof. intros HP. apply add_pos_from_bound in HP. lia. Qed.
+
+Lemma lookup_adds_from_firstn l : forall i pos a j n,
+  add_pos_from l i pos = Some a -> (a < pos + n)%nat ->
+  lookup_add (adds_from (firstn n l) j) (j + i) <> None.
+Proof.
+  induction l as [|u l IH]; intros i pos a j n HP HL; cbn in HP; [discriminate|].
+  destruct n as [|n].
+  { exfalso. destruct u; try (apply add_pos_from_bound in HP; lia).
+    destruct i; [inversion HP; lia|apply add_pos_from_bound in HP; lia]. }
+  cbn [firstn adds_from].
+  destruct u; try (eapply IH; [exact HP|lia]).
+  cbn [lookup_add a_idx]. destruct i.
+  - replace (j + 0)%nat with j by lia. rewrite Nat.eqb_refl. discriminate.
+  - destruct (Nat.eqb_spec (j + S i) j); [lia|].
+    replace (j + S i)%nat with (S j + i)%nat by lia.
+    eapply IH; [exact HP|lia].
+Qed.
+
+Lemma lookup_adds_firstn l i a n :
+  add_pos l i = Some a -> (a < n)%nat -> lookup_add (adds_of (firstn n l)) i <> None.
+Proof.
+  intros HP HL. unfold adds_of.
+  apply (lookup_adds_from_firstn l i 0%nat a 0%nat n); [exact HP|lia].
+Qed.
+
+Lemma removed_amounts_some adds rems :
+  (forall p, In p (map fst rems) -> lookup_add adds p <> None) ->
+  removed_amounts adds rems <> None.
+Proof.
+  induction rems as [|[p s] rems IH]; intros HA; cbn; [discriminate|].
+  destruct (lookup_add adds p) eqn:HL; [|exfalso; apply (HA p); [left; reflexivity|exact HL]].
+  destruct (removed_amounts adds rems) as [[st fl]|]; [destruct s; discriminate|].
+  exfalso. apply IH; [|reflexivity]. intros q HI. apply HA. right. exact HI.
+Qed.
+
+(* a cut is well formed when parents are unique and every included removal's
+   parent add lies inside the cut of the other log *)
+Lemma commit_wf_intro lA lB nA nB :
+  NoDup (parents (firstn nA lA)) -> NoDup (parents (firstn nB lB)) ->
+  (forall i, In i (parents (firstn nB lB)) -> exists a, add_pos lA i = Some a /\ (a < nA)%nat) ->
+  (forall i, In i (parents (firstn nA lA)) -> exists a, add_pos lB i = Some a /\ (a < nB)%nat) ->
+  commit_wf lA lB nA nB = true.
+Proof.
+  intros HNA HNB HB HA. unfold commit_wf. cbv zeta.
+  apply nodupb_iff in HNA. apply nodupb_iff in HNB. rewrite HNA, HNB. cbn [andb].
+  destruct (removed_amounts (adds_of (firstn nA lA)) (removes_of (firstn nB lB))) as [r1|] eqn:H1.
+  2:{ exfalso. revert H1. apply removed_amounts_some. intros p HI.
+      destruct (HB p HI) as [a [HP HL]]. eapply lookup_adds_firstn; eassumption. }
+  destruct (removed_amounts (adds_of (firstn nB lB)) (removes_of (firstn nA lA))) as [r2|] eqn:H2.
+  2:{ exfalso. revert H2. apply removed_amounts_some. intros p HI.
+      destruct (HA p HI) as [a [HP HL]]. eapply lookup_adds_firstn; eassumption. }
+  reflexivity.
+Qed.
+
+Lemma commit_eqb_refl k : commit_eqb k k = true.
+Proof.
+  unfold commit_eqb. rewrite !eqb_reflx, !Z.eqb_refl, !Nat.eqb_refl. cbn [andb].
+  induction (c_htlcs k) as [|x l IH]; [reflexivity|].
+  rewrite !eqb_reflx, !Z.eqb_refl, !Nat.eqb_refl. cbn [andb]. exact IH.
+Qed.
+
+(* ------------------------------------------------------------------ *)
+(* Part C: queues and the two-party invariant                          *)
+
+Fixpoint upds_in (q : list msg) : list upd :=
+  match q with [] => [] | MUpd u :: r => u :: upds_in r | _ :: r => upds_in r end.
+Fixpoint nsig (q : list msg) : nat :=
+  match q with [] => 0 | MSig _ :: r => S (nsig r) | _ :: r => nsig r end.
+Fixpoint nrev (q : list msg) : nat :=
+  match q with [] => 0 | MRev :: r => S (nrev r) | _ :: r => nrev r end.
+(* updates in the queue before the first revocation *)
+Fixpoint upto_rev (q : list msg) : list upd :=
+  match q with
+  | [] => [] | MRev :: _ => [] | MUpd u :: r => u :: upto_rev r | MSig _ :: r => upto_rev r
+  end.
+Definition nupd (q : list msg) : nat := length (upds_in q).
+
+Lemma upds_in_app a b : upds_in (a ++ b) = upds_in a ++ upds_in b.
+Proof. induction a as [|m a IH]; cbn; [reflexivity|]. destruct m; cbn; rewrite IH; reflexivity. Qed.
+Lemma nsig_app a b : nsig (a ++ b) = (nsig a + nsig b)%nat.
+Proof. induction a as [|m a IH]; cbn; [reflexivity|]. destruct m; cbn; rewrite IH; reflexivity. Qed.
+Lemma nrev_app a b : nrev (a ++ b) = (nrev a + nrev b)%nat.
+Proof. induction a as [|m a IH]; cbn; [reflexivity|]. destruct m; cbn; rewrite IH; reflexivity. Qed.
+Lemma nupd_app a b : nupd (a ++ b) = (nupd a + nupd b)%nat.
+Proof. unfold nupd. rewrite upds_in_app, app_length. reflexivity. Qed.
+
+Lemma upto_rev_norev q : nrev q = 0%nat -> upto_rev q = upds_in q.
+Proof.
+  induction q as [|m q IH]; cbn; [reflexivity|]. destruct m; cbn; intros HN;
+  try discriminate; rewrite IH by exact HN; reflexivity.
+Qed.
+
+Lemma upto_rev_app_norev a b : nrev a = 0%nat -> upto_rev (a ++ b) = upds_in a ++ upto_rev b.
+Proof.
+  induction a as [|m a IH]; cbn; [reflexivity|]. destruct m; cbn; intros HN;
+  try discriminate; rewrite IH by exact HN; reflexivity.
+Qed.
+
+Lemma upto_rev_app_rev a b : nrev a <> 0%nat -> upto_rev (a ++ b) = upto_rev a.
+Proof.
+  induction a as [|m a IH]; cbn; [congruence|]. destruct m; cbn; intros HN;
+  try reflexivity; rewrite IH by exact HN; reflexivity.
+Qed.
+
+Lemma nsig_notin q k : nsig q = 0%nat -> ~ In (MSig k) q.
+Proof.
+  induction q as [|m q IH]; cbn; [tauto|]. destruct m; intros HN [E|HI];
+  try discriminate; apply IH; assumption.
+Qed.
+
+Lemma nrev_app_0 a b : nrev (a ++ b) = 0%nat -> nrev a = 0%nat /\ nrev b = 0%nat.
+Proof. rewrite nrev_app. lia. Qed.
+
+Lemma upto_rev_snoc q m :
+  upto_rev (q ++ [m]) =
+  if Nat.eqb (nrev q) 0 then upto_rev q ++ (match m with MUpd u => [u] | _ => [] end)
+  else upto_rev q.
+Proof.
+  destruct (Nat.eqb_spec (nrev q) 0) as [E|E].
+  - rewrite (upto_rev_app_norev q [m] E), (upto_rev_norev q E). destruct m; reflexivity.
+  - apply upto_rev_app_rev. exact E.
+Qed.
+
+Lemma parents_snoc_in l u i :
+  In i (parents (l ++ [u])) -> In i (parents l) \/ u = USettle i \/ u = UFail i.
+Proof.
+  rewrite parents_app. intros HI. apply in_app_or in HI. destruct HI as [HI|HI]; [left; exact HI|].
+  right. destruct u; cbn in HI; try contradiction; destruct HI as [<-|[]]; auto.
+Qed.
+
+Lemma removal_enabled_inv p x i :
+  removal_enabled p x i = true ->
+  exists a, add_pos (peer x) i = Some a /\ (a < n_of (negb p) (lTail x))%nat /\
+            (a < n_of (negb p) (rTail x))%nat /\ ~ In i (parents (own x)).
+Proof.
+  unfold removal_enabled. destruct (add_pos (peer x) i) as [a|]; [|discriminate].
+  rewrite !andb_true_iff, !Nat.ltb_lt, negb_true_iff. intros [[H1 H2] H3].
+  exists a. repeat split; try assumption.
+  intros HI. rewrite existsb_fst_map in H3.
+  assert (existsb (fun y => Nat.eqb y i) (map fst (removes_of (own x))) = true); [|congruence].
+  apply existsb_exists. exists i. split; [exact HI|apply Nat.eqb_refl].
+Qed.
+
+Local Open Scope nat_scope.
+
+Section Invariant.
+Variable c : cfg.
+
+Definition sel {A} (S : bool) (a b : A) : A := if S then a else b.
+
+(* [k] is the commit_of of its own cut over the GLOBAL logs (own S, own H),
+   and its cut lies inside them *)
+Definition good (S H : bool) (lS lH : list upd) (k : commit) : Prop :=
+  commit_of c (c_owner k) (c_h k) (sel S lS lH) (sel S lH lS) (c_nA k) (c_nB k) = Some k
+  /\ n_of S k <= length lS /\ n_of H k <= length lH.
+
+(* the value rTail x will have once the revocations in [pre] are delivered *)
+Definition ev_rtail (x : party) (pre : list msg) : commit :=
+  if Nat.eqb (nrev pre) 0 then rTail x else tip_of (rTail x) (rTip x).
+
+Definition kgood (S H : bool) (xS xH : party) (k : commit) : Prop :=
+  good S H (own xS) (own xH) k /\ c_owner k = H /\
+  c_h k = (c_h (rTail xS) + 1)%Z /\ n_of S (rTail xS) <= n_of S k.
+
+Definition sig_at (S H : bool) (xH : party) (qS : list msg) (k : commit) : Prop :=
+  exists pre post, qS = pre ++ MSig k :: post /\ nsig pre = 0 /\ nsig post = 0 /\
+    n_of S k = length (peer xH) + nupd pre /\ n_of H k = n_of H (ev_rtail xH pre).
+
+(* the 4-phase cycle of direction "S signs H's commitments" *)
+Inductive phase (S H : bool) (xS xH : party) (qS qH : list msg) : Prop :=
+| Ph0 : rTip xS = None -> lTip xH = None -> nsig qS = 0 -> nrev qH = 0 ->
+        rTail xS = lTail xH -> phase S H xS xH qS qH
+| Ph1 k : rTip xS = Some k -> kgood S H xS xH k -> sig_at S H xH qS k ->
+        lTip xH = None -> nrev qH = 0 -> rTail xS = lTail xH -> phase S H xS xH qS qH
+| Ph2 k : rTip xS = Some k -> kgood S H xS xH k -> nsig qS = 0 -> lTip xH = Some k ->
+        nrev qH = 0 -> rTail xS = lTail xH -> n_of S k <= length (peer xH) ->
+        phase S H xS xH qS qH
+| Ph3 k : rTip xS = Some k -> kgood S H xS xH k -> nsig qS = 0 -> lTip xH = None ->
+        lTail xH = k -> nrev qH = 1 -> n_of S k <= length (peer xH) ->
+        phase S H xS xH qS qH.
+
+Record InvDir (S H : bool) (xS xH : party) (qS qH : list msg) : Prop := mkInvDir {
+  i_j1 : peer xH ++ upds_in qS = own xS;
+  i_an : amounts_nonneg (own xS);
+  i_nd : NoDup (parents (own xS));
+  i_wa : forall i, In i (parents (own xS)) ->
+         exists a, add_pos (own xH) i = Some a /\ a < n_of H (lTail xS);
+  i_wb : forall i, In i (parents (peer xH ++ upto_rev qS)) ->
+         exists a, add_pos (own xH) i = Some a /\ a < n_of H (rTail xH);
+  i_gt : good S H (own xS) (own xH) (rTail xS);
+  i_gl : good S H (own xS) (own xH) (lTail xH);
+  i_bl : n_of S (lTail xH) <= length (peer xH);
+  i_m1 : n_of H (rTail xS) <= n_of H (lTail xS) /\
+         (forall k, rTip xS = Some k -> n_of H k <= n_of H (lTail xS));
+  i_ph : phase S H xS xH qS qH
+}.
+
+Lemma good_app_S S H lS lH e k : good S H lS lH k -> good S H (lS ++ e) lH k.
+Proof.
+  intros [HK [HS HH]]. split; [|rewrite app_length; lia].
+  rewrite <- HK. destruct S; cbn [sel n_of] in *;
+    apply commit_of_ext; try reflexivity; apply firstn_app_le; assumption.
+Qed.
+
+Lemma good_app_H S H lS lH e k : H = negb S -> good S H lS lH k -> good S H lS (lH ++ e) k.
+Proof.
+  intros -> [HK [HS HH]]. split; [|rewrite app_length; lia].
+  rewrite <- HK. destruct S; cbn [sel n_of negb] in *;
+    apply commit_of_ext; try reflexivity; apply firstn_app_le; assumption.
+Qed.
+
+Lemma kgood_app_S S H xS xH k e o (p : option commit) lt lp rp :
+  rTail xS = rp ->
+  kgood S H xS xH k ->
+  kgood S H (mkParty (own xS ++ e) o lt lp rp p) xH k.
+Proof.
+  intros <- [HG HR]. split; [|exact HR]. cbn [own]. apply good_app_S. exact HG.
+Qed.
+
+Lemma kgood_app_H S H xS xH k e o lt lp rt rp : H = negb S ->
+  kgood S H xS xH k ->
+  kgood S H xS (mkParty (own xH ++ e) o lt lp rt rp) k.
+Proof.
+  intros HSH [HG HR]. split; [|exact HR]. cbn [own]. apply good_app_H; assumption.
+Qed.
+
+(* derived: lTail of the holder is what rTail of the signer will become *)
+Lemma phase_ev_rtail S H xS xH qS qH :
+  phase S H xS xH qS qH -> lTail xH = ev_rtail xS qH.
+Proof.
+  unfold ev_rtail. intros [R L NS NR E|k R G SA L NR E|k R G NS L NR E B|k R G NS L LT NR B];
+  rewrite NR; cbn [Nat.eqb]; try (symmetry; exact E).
+  rewrite R. cbn. exact LT.
+Qed.
+
+Lemma phase_norev_tail S H xS xH qS qH :
+  phase S H xS xH qS qH -> nrev qH = 0 -> rTail xS = lTail xH.
+Proof.
+  intros [R L NS NR E|k R G SA L NR E|k R G NS L NR E B|k R G NS L LT NR B] HN;
+  try exact E. congruence.
+Qed.
+
+(* ---------- OSend by S ---------- *)
+Lemma send_S S H xS xH qS qH u : H = negb S ->
+  InvDir S H xS xH qS qH -> InvDir H S xH xS qH qS ->
+  upd_enabled c S xS u = true ->
+  InvDir S H (mkParty (own xS ++ [u]) (peer xS) (lTail xS) (lTip xS) (rTail xS) (rTip xS))
+         xH (qS ++ [MUpd u]) qH.
+Proof.
+  intros HSH [j1 an nd wa wb gt gl bl m1 ph] [j1' an' nd' wa' wb' gt' gl' bl' m1' ph'] HE.
+  assert (HR : forall i, u = USettle i \/ u = UFail i ->
+            ~ In i (parents (own xS)) /\
+            exists a, add_pos (own xH) i = Some a /\ a < n_of H (lTail xS)).
+  { intros i Hu. assert (HE' : removal_enabled S xS i = true) by (destruct Hu; subst u; exact HE).
+    apply removal_enabled_inv in HE'. destruct HE' as [a [HP [HL [_ HN]]]].
+    split; [exact HN|]. exists a. rewrite <- HSH in HL. split; [|exact HL].
+    rewrite <- j1'. apply add_pos_app. exact HP. }
+  constructor; cbn [own peer lTail lTip rTail rTip].
+  - rewrite upds_in_app, app_assoc, j1. reflexivity.
+  - apply Forall_app. split; [exact an|]. constructor; [|constructor].
+    destruct u; cbn in *; try exact I. lia.
+  - rewrite parents_app. destruct u; cbn [parents removes_of map]; rewrite ?app_nil_r; try exact nd;
+    apply nodup_snoc; try exact nd; apply HR; auto.
+  - intros i HI. apply parents_snoc_in in HI. destruct HI as [HI|HI]; [apply wa; exact HI|].
+    apply HR. exact HI.
+  - intros i HI. rewrite upto_rev_snoc in HI.
+    destruct (Nat.eqb_spec (nrev qS) 0) as [E|E]; [|apply wb; exact HI].
+    rewrite app_assoc in HI. apply parents_snoc_in in HI.
+    destruct HI as [HI|HI]; [apply wb; exact HI|].
+    rewrite (phase_norev_tail _ _ _ _ _ _ ph' E). apply HR. exact HI.
+  - apply good_app_S. exact gt.
+  - apply good_app_S. exact gl.
+  - exact bl.
+  - exact m1.
+  - destruct ph as [R L NS NR E|kp R G SA L NR E|kp R G NS L NR E B|kp R G NS L LT NR B].
+    + apply Ph0; cbn [rTip rTail]; try assumption. rewrite nsig_app, NS. reflexivity.
+    + eapply Ph1; cbn [rTip rTail]; try eassumption.
+      * apply kgood_app_S; [reflexivity|exact G].
+      * destruct SA as [pre [post [EQ [N1 [N2 [C1 C2]]]]]].
+        exists pre, (post ++ [MUpd u]). rewrite EQ, <- app_assoc. cbn [app].
+        repeat split; try assumption. rewrite nsig_app, N2. reflexivity.
+    + eapply Ph2; cbn [rTip rTail]; try eassumption.
+      * apply kgood_app_S; [reflexivity|exact G].
+      * rewrite nsig_app, NS. reflexivity.
+    + eapply Ph3; cbn [rTip rTail]; try eassumption.
+      * apply kgood_app_S; [reflexivity|exact G].
+      * rewrite nsig_app, NS. reflexivity.
+Qed.
+
+Lemma negb_swap (S H : bool) : H = negb S -> S = negb H.
+Proof. intros ->. destruct S; reflexivity. Qed.
+
+Ltac ph_cases ph :=
+  destruct ph as [R L NS NR E|kp R G SA L NR E|kp R G NS L NR E B|kp R G NS L LT NR B].
+Ltac psimpl := cbn [own peer lTail lTip rTail rTip].
+
+Lemma send_H S H xS xH qS qH u : H = negb S ->
+  InvDir S H xS xH qS qH -> InvDir H S xH xS qH qS ->
+  upd_enabled c S xS u = true ->
+  InvDir H S xH (mkParty (own xS ++ [u]) (peer xS) (lTail xS) (lTip xS) (rTail xS) (rTip xS))
+         qH (qS ++ [MUpd u]).
+Proof.
+  intros HSH [j1 an nd wa wb gt gl bl m1 ph] [j1' an' nd' wa' wb' gt' gl' bl' m1' ph'] HE.
+  pose proof (negb_swap _ _ HSH) as HHS.
+  constructor; psimpl; try assumption.
+  - intros i HI. destruct (wa' i HI) as [a [HP HL]]. exists a. split; [|exact HL].
+    apply add_pos_app. exact HP.
+  - intros i HI. destruct (wb' i HI) as [a [HP HL]]. exists a. split; [|exact HL].
+    apply add_pos_app. exact HP.
+  - apply good_app_H; assumption.
+  - apply good_app_H; assumption.
+  - ph_cases ph'.
+    + apply Ph0; psimpl; try assumption. rewrite nrev_app, NR. reflexivity.
+    + eapply Ph1; psimpl; try eassumption.
+      * apply kgood_app_H; assumption.
+      * rewrite nrev_app, NR. reflexivity.
+    + eapply Ph2; psimpl; try eassumption.
+      * apply kgood_app_H; assumption.
+      * rewrite nrev_app, NR. reflexivity.
+    + eapply Ph3; psimpl; try eassumption.
+      * apply kgood_app_H; assumption.
+      * rewrite nrev_app, NR. reflexivity.
+Qed.
+
+(* ---------- OSign by S ---------- *)
+Lemma sign_good S H xS xH nS nH k h : H = negb S ->
+  commit_of c H h (logA_of S xS) (logB_of S xS) (sel S nS nH) (sel S nH nS) = Some k ->
+  nS <= length (own xS) -> firstn nH (peer xS) = firstn nH (own xH) -> nH <= length (own xH) ->
+  good S H (own xS) (own xH) k /\ c_owner k = H /\ c_h k = h /\ n_of S k = nS /\ n_of H k = nH.
+Proof.
+  intros -> HK HS HF HH. pose proof (commit_of_inv _ _ _ _ _ _ _ _ HK) as HI.
+  destruct HI as [gA [gB [_ [_ HI]]]]. cbv zeta in HI.
+  destruct HI as [_ [_ [_ [Ho [Hh [HnA [HnB _]]]]]]].
+  unfold good. rewrite Ho, Hh, HnA, HnB.
+  destruct S; cbn [sel negb n_of logA_of logB_of] in *; rewrite ?HnA, ?HnB;
+  (split; [|tauto]); split; [|lia| |lia]; rewrite <- HK; apply commit_of_ext;
+  try reflexivity; symmetry; exact HF.
+Qed.
+
+Definition set_rTip (x : party) (t : option commit) : party :=
+  mkParty (own x) (peer x) (lTail x) (lTip x) (rTail x) t.
+
+Lemma sign_S S H xS xH qS qH k : H = negb S ->
+  InvDir S H xS xH qS qH -> InvDir H S xH xS qH qS ->
+  rTip xS = None ->
+  commit_of c H (c_h (rTail xS) + 1)%Z (logA_of S xS) (logB_of S xS)
+    (sel S (length (own xS)) (n_of H (lTail xS)))
+    (sel S (n_of H (lTail xS)) (length (own xS))) = Some k ->
+  InvDir S H (set_rTip xS (Some k)) xH (qS ++ [MSig k]) qH.
+Proof.
+  intros HSH [j1 an nd wa wb gt gl bl m1 ph] [j1' an' nd' wa' wb' gt' gl' bl' m1' ph'] HR HK.
+  unfold set_rTip.
+  assert (HL : length (own xH) = length (peer xS) + nupd qH).
+  { rewrite <- j1', app_length. reflexivity. }
+  apply sign_good with (xH := xH) in HK; try assumption; try lia.
+  2:{ eapply firstn_prefix; [exact j1'|exact bl']. }
+  destruct HK as [HG [Ho [Hh [HnS HnH]]]].
+  constructor; psimpl; try assumption.
+  - rewrite upds_in_app. cbn [upds_in]. rewrite app_nil_r. exact j1.
+  - intros i HI. apply wb. rewrite upto_rev_snoc in HI.
+    destruct (Nat.eqb (nrev qS) 0); [rewrite app_nil_r in HI|]; exact HI.
+  - destruct m1 as [m1a m1b]. split; [exact m1a|]. intros k0 HE. inversion HE; subst k0. lia.
+  - ph_cases ph; try congruence.
+    eapply Ph1; psimpl; try eassumption; try reflexivity.
+    + split; [exact HG|]. split; [exact Ho|]. split; [exact Hh|].
+      rewrite HnS. destruct gt as [_ [gt1 _]]. exact gt1.
+    + exists qS, []. repeat split; try assumption.
+      * rewrite HnS, <- j1, app_length. reflexivity.
+      * rewrite HnH. rewrite (phase_ev_rtail _ _ _ _ _ _ ph'). reflexivity.
+Qed.
+
+Lemma sign_H S H xS xH qS qH k : H = negb S ->
+  InvDir S H xS xH qS qH -> InvDir H S xH xS qH qS ->
+  rTip xS = None ->
+  InvDir H S xH (set_rTip xS (Some k)) qH (qS ++ [MSig k]).
+Proof.
+  intros HSH [j1 an nd wa wb gt gl bl m1 ph] [j1' an' nd' wa' wb' gt' gl' bl' m1' ph'] HR.
+  unfold set_rTip.
+  assert (HNR : nrev qH = 0) by (ph_cases ph; congruence).
+  assert (HN : nrev (qS ++ [MSig k]) = nrev qS) by (rewrite nrev_app; cbn; lia).
+  constructor; psimpl; try assumption.
+  ph_cases ph'.
+  - apply Ph0; psimpl; try assumption. congruence.
+  - eapply Ph1; psimpl; try eassumption; [|congruence].
+    destruct SA as [pre [post [EQ [N1 [N2 [C1 C2]]]]]].
+    exists pre, post. repeat split; try assumption.
+    rewrite EQ in HNR. apply nrev_app_0 in HNR. destruct HNR as [HNR _].
+    unfold ev_rtail in *. psimpl. rewrite HNR in *. exact C2.
+  - eapply Ph2; psimpl; try eassumption. congruence.
+  - eapply Ph3; psimpl; try eassumption. congruence.
+Qed.
+
+(* ---------- ORevoke by S ---------- *)
+Definition revoked (x : party) (k : commit) : party :=
+  mkParty (own x) (peer x) k None (rTail x) (rTip x).
+
+Lemma revoke_S S H xS xH qS qH k : H = negb S ->
+  InvDir S H xS xH qS qH -> InvDir H S xH xS qH qS ->
+  lTip xS = Some k ->
+  InvDir S H (revoked xS k) xH (qS ++ [MRev]) qH.
+Proof.
+  intros HSH [j1 an nd wa wb gt gl bl m1 ph] [j1' an' nd' wa' wb' gt' gl' bl' m1' ph'] HL.
+  unfold revoked.
+  assert (HNS : nsig (qS ++ [MRev]) = nsig qS) by (rewrite nsig_app; cbn; lia).
+  assert (HM : n_of H (lTail xS) <= n_of H k).
+  { ph_cases ph'; try congruence. assert (kp = k) by congruence. subst kp.
+    destruct G as [_ [_ [_ HM]]]. rewrite E in HM. exact HM. }
+  constructor; psimpl; try assumption.
+  - rewrite upds_in_app. cbn [upds_in]. rewrite app_nil_r. exact j1.
+  - intros i HI. destruct (wa i HI) as [a [HP HA]]. exists a. split; [exact HP|]. lia.
+  - intros i HI. apply wb. rewrite upto_rev_snoc in HI.
+    destruct (Nat.eqb (nrev qS) 0); [rewrite app_nil_r in HI|]; exact HI.
+  - destruct m1 as [m1a m1b]. split; [lia|]. intros k0 HE. specialize (m1b k0 HE). lia.
+  - ph_cases ph.
+    + apply Ph0; psimpl; try assumption. congruence.
+    + eapply Ph1; psimpl; try eassumption.
+      destruct SA as [pre [post [EQ [N1 [N2 [C1 C2]]]]]].
+      exists pre, (post ++ [MRev]). rewrite EQ, <- app_assoc. cbn [app].
+      repeat split; try assumption. rewrite nsig_app, N2. reflexivity.
+    + eapply Ph2; psimpl; try eassumption. congruence.
+    + eapply Ph3; psimpl; try eassumption. congruence.
+Qed.
+
+Lemma revoke_H S H xS xH qS qH k : H = negb S ->
+  InvDir S H xS xH qS qH -> InvDir H S xH xS qH qS ->
+  lTip xS = Some k ->
+  InvDir H S xH (revoked xS k) qH (qS ++ [MRev]).
+Proof.
+  intros HSH [j1 an nd wa wb gt gl bl m1 ph] [j1' an' nd' wa' wb' gt' gl' bl' m1' ph'] HL.
+  unfold revoked.
+  ph_cases ph'; try congruence.
+  assert (kp = k) by congruence. subst kp.
+  constructor; psimpl; try assumption.
+  - destruct G as [G _]. exact G.
+  - eapply Ph3; psimpl; try eassumption; try reflexivity.
+    rewrite nrev_app, NR. reflexivity.
+Qed.
+
+(* ---------- ODeliver to S of an update ---------- *)
+Definition recv_upd (x : party) (u : upd) : party :=
+  mkParty (own x) (peer x ++ [u]) (lTail x) (lTip x) (rTail x) (rTip x).
+
+Lemma dupd_S S H xS xH qS q u : H = negb S ->
+  InvDir S H xS xH qS (MUpd u :: q) -> InvDir H S xH xS (MUpd u :: q) qS ->
+  InvDir S H (recv_upd xS u) xH qS q.
+Proof.
+  intros HSH [j1 an nd wa wb gt gl bl m1 ph] [j1' an' nd' wa' wb' gt' gl' bl' m1' ph'].
+  unfold recv_upd.
+  constructor; psimpl; try assumption.
+  cbn [nrev] in ph.
+  ph_cases ph.
+  - apply Ph0; psimpl; assumption.
+  - eapply Ph1; psimpl; eassumption.
+  - eapply Ph2; psimpl; eassumption.
+  - eapply Ph3; psimpl; eassumption.
+Qed.
+
+Lemma dupd_H S H xS xH qS q u : H = negb S ->
+  InvDir S H xS xH qS (MUpd u :: q) -> InvDir H S xH xS (MUpd u :: q) qS ->
+  InvDir H S xH (recv_upd xS u) q qS.
+Proof.
+  intros HSH [j1 an nd wa wb gt gl bl m1 ph] [j1' an' nd' wa' wb' gt' gl' bl' m1' ph'].
+  unfold recv_upd.
+  constructor; psimpl; try assumption.
+  - rewrite <- app_assoc. exact j1'.
+  - intros i HI. apply wb'. rewrite <- app_assoc in HI. exact HI.
+  - rewrite app_length. lia.
+  - cbn [nsig] in ph'. ph_cases ph'.
+    + apply Ph0; psimpl; assumption.
+    + eapply Ph1; psimpl; try eassumption.
+      destruct SA as [pre [post [EQ [N1 [N2 [C1 C2]]]]]].
+      destruct pre as [|m pre]; [discriminate|]. cbn [app] in EQ. inversion EQ; subst m q.
+      exists pre, post. cbn [nsig nrev] in *. unfold nupd in *. cbn [upds_in length] in C1.
+      repeat split; try assumption; psimpl.
+      rewrite app_length. cbn [length]. lia.
+    + eapply Ph2; psimpl; try eassumption. rewrite app_length. lia.
+    + eapply Ph3; psimpl; try eassumption. rewrite app_length. lia.
+Qed.
+
+(* ---------- ODeliver to S of a commitment signature ---------- *)
+Definition set_lTip (x : party) (t : option commit) : party :=
+  mkParty (own x) (peer x) (lTail x) t (rTail x) (rTip x).
+
+Lemma recv_commit S H xS xH e k : H = negb S ->
+  good H S (own xH) (own xS) k -> c_owner k = S ->
+  n_of H k = length (peer xS) -> peer xS ++ e = own xH ->
+  commit_of c S (c_h k) (logA_of S xS) (logB_of S xS)
+    (sel S (n_of S k) (length (peer xS))) (sel S (length (peer xS)) (n_of S k)) = Some k.
+Proof.
+  intros -> [HK _] Ho Hn Hj. rewrite Ho in HK. etransitivity; [|exact HK].
+  destruct S; cbn [sel negb n_of logA_of logB_of] in *; rewrite <- Hn;
+  apply commit_of_ext; try reflexivity; rewrite Hn;
+  (eapply firstn_prefix; [exact Hj|lia]).
+Qed.
+
+(* the head signature of the queue towards S, and what the invariant knows of it *)
+Lemma head_sig S H xS xH qS q k0 :
+  InvDir H S xH xS (MSig k0 :: q) qS ->
+  rTip xH = Some k0 /\ kgood H S xH xS k0 /\ nsig q = 0 /\
+  n_of H k0 = length (peer xS) /\ n_of S k0 = n_of S (rTail xS) /\
+  lTip xS = None /\ nrev qS = 0 /\ rTail xH = lTail xS.
+Proof.
+  intros [j1' an' nd' wa' wb' gt' gl' bl' m1' ph'].
+  ph_cases ph'; try (cbn [nsig] in NS; discriminate).
+  destruct SA as [pre [post [EQ [N1 [N2 [C1 C2]]]]]].
+  destruct pre as [|m pre].
+  - cbn [app] in EQ. inversion EQ; subst kp post.
+    unfold ev_rtail, nupd in *. cbn [upds_in length nrev Nat.eqb] in C1, C2.
+    rewrite Nat.add_0_r in C1. split; [exact R|]. split; [exact G|]. repeat split; assumption.
+  - cbn [app] in EQ. inversion EQ; subst m. cbn [nsig] in N1. discriminate.
+Qed.
+
+Lemma recv_sig_ok S H xS xH qS q k0 : H = negb S ->
+  InvDir H S xH xS (MSig k0 :: q) qS ->
+  do_recv_sig c S xS k0 = (Ok, set_lTip xS (Some k0)).
+Proof.
+  intros HSH I'. pose proof (head_sig _ _ _ _ _ _ _ I') as HS.
+  destruct HS as [R [G [N2 [C1 [C2 [L [NR E]]]]]]].
+  destruct I' as [j1' an' nd' wa' wb' gt' gl' bl' m1' ph'].
+  destruct G as [HG [Ho [Hh _]]].
+  pose proof (recv_commit S H xS xH _ k0 HSH HG Ho C1 j1') as HC.
+  unfold do_recv_sig. cbv zeta. rewrite L. cbn [tip_of].
+  rewrite Hh, E, C2 in HC. unfold sel in HC.
+  rewrite HC, commit_eqb_refl. reflexivity.
+Qed.
+
+Lemma dsig_S S H xS xH qS q k0 : H = negb S ->
+  InvDir S H xS xH qS (MSig k0 :: q) -> InvDir H S xH xS (MSig k0 :: q) qS ->
+  InvDir S H (set_lTip xS (Some k0)) xH qS q.
+Proof.
+  intros HSH [j1 an nd wa wb gt gl bl m1 ph] _.
+  unfold set_lTip.
+  constructor; psimpl; try assumption.
+  cbn [nrev] in ph.
+  ph_cases ph.
+  - apply Ph0; psimpl; assumption.
+  - eapply Ph1; psimpl; eassumption.
+  - eapply Ph2; psimpl; eassumption.
+  - eapply Ph3; psimpl; eassumption.
+Qed.
+
+Lemma dsig_H S H xS xH qS q k0 : H = negb S ->
+  InvDir S H xS xH qS (MSig k0 :: q) -> InvDir H S xH xS (MSig k0 :: q) qS ->
+  InvDir H S xH (set_lTip xS (Some k0)) q qS.
+Proof.
+  intros HSH _ I'. pose proof (head_sig _ _ _ _ _ _ _ I') as HS.
+  destruct HS as [R [G [N2 [C1 [C2 [L [NR E]]]]]]].
+  destruct I' as [j1' an' nd' wa' wb' gt' gl' bl' m1' ph'].
+  unfold set_lTip.
+  constructor; psimpl; try assumption.
+  eapply Ph2; psimpl; try eassumption; try reflexivity. lia.
+Qed.
+
+(* ---------- ODeliver to S of a revocation ---------- *)
+Definition recv_rev (x : party) (k : commit) : party :=
+  mkParty (own x) (peer x) (lTail x) (lTip x) k None.
+
+Lemma drev_S S H xS xH qS q k : H = negb S ->
+  InvDir S H xS xH qS (MRev :: q) -> InvDir H S xH xS (MRev :: q) qS ->
+  rTip xS = Some k ->
+  InvDir S H (recv_rev xS k) xH qS q.
+Proof.
+  intros HSH [j1 an nd wa wb gt gl bl m1 ph] _ HR.
+  unfold recv_rev.
+  ph_cases ph; cbn [nrev] in NR; try discriminate.
+  assert (k = kp) by congruence. subst k.
+  constructor; psimpl; try assumption.
+  - destruct G as [G _]. exact G.
+  - destruct m1 as [m1a m1b]. split; [apply m1b; exact R|]. intros k0 HE. discriminate.
+  - apply Ph0; psimpl; try assumption; try reflexivity; [lia|congruence].
+Qed.
+
+Lemma drev_H S H xS xH qS q k : H = negb S ->
+  InvDir S H xS xH qS (MRev :: q) -> InvDir H S xH xS (MRev :: q) qS ->
+  rTip xS = Some k ->
+  InvDir H S xH (recv_rev xS k) q qS.
+Proof.
+  intros HSH [j1 an nd wa wb gt gl bl m1 ph] [j1' an' nd' wa' wb' gt' gl' bl' m1' ph'] HR.
+  unfold recv_rev.
+  assert (HQ : nrev q = 0 /\ lTail xH = k).
+  { ph_cases ph; cbn [nrev] in NR; try discriminate. split; [lia|congruence]. }
+  destruct HQ as [HQ HT].
+  constructor; psimpl; try assumption.
+  - intros i HI. rewrite (upto_rev_norev q HQ) in HI. cbn [upds_in] in j1'.
+    rewrite j1' in HI. rewrite <- HT. apply wa'. exact HI.
+  - cbn [nsig] in ph'. ph_cases ph'.
+    + apply Ph0; psimpl; assumption.
+    + eapply Ph1; psimpl; try eassumption.
+      destruct SA as [pre [post [EQ [N1 [N2 [C1 C2]]]]]].
+      destruct pre as [|m pre]; [discriminate|]. cbn [app] in EQ. inversion EQ; subst m q.
+      exists pre, post. cbn [nsig] in N1. unfold nupd in *. cbn [upds_in] in C1.
+      repeat split; try assumption; psimpl.
+      unfold ev_rtail in *. cbn [nrev Nat.eqb] in C2. psimpl. rewrite HR in C2. cbn [tip_of] in *.
+      rewrite C2. destruct (Nat.eqb (nrev pre) 0); reflexivity.
+    + eapply Ph2; psimpl; eassumption.
+    + eapply Ph3; psimpl; eassumption.
+Qed.
+
+(* ---------- the system invariant ---------- *)
+Definition Inv (s : sys) : Prop :=
+  InvDir true false (pA s) (pB s) (qAB s) (qBA s) /\
+  InvDir false true (pB s) (pA s) (qBA s) (qAB s).
+
+Lemma inv_get s : Inv s -> forall p,
+  InvDir p (negb p) (get s p) (get s (negb p)) (outq s p) (outq s (negb p)) /\
+  InvDir (negb p) p (get s (negb p)) (get s p) (outq s (negb p)) (outq s p).
+Proof. intros [I1 I2] [|]; cbn; tauto. Qed.
+
+Lemma do_sign_ok p x x' m :
+  do_sign c p x = (Ok, x', Some m) ->
+  exists k, rTip x = None /\
+    commit_of c (negb p) (c_h (rTail x) + 1)%Z (logA_of p x) (logB_of p x)
+      (sel p (length (own x)) (n_of (negb p) (lTail x)))
+      (sel p (n_of (negb p) (lTail x)) (length (own x))) = Some k /\
+    x' = set_rTip x (Some k) /\ m = MSig k.
+Proof.
+  unfold do_sign, sel. destruct (rTip x); [discriminate|]. cbv zeta.
+  destruct (commit_of _ _ _ _ _ _ _) as [k|]; [|discriminate].
+  intros HE. inversion HE; subst. exists k. repeat split.
+Qed.
+
+Lemma do_revoke_ok x x' m :
+  do_revoke x = (Ok, x', Some m) ->
+  exists k, lTip x = Some k /\ x' = revoked x k /\ m = MRev.
+Proof.
+  unfold do_revoke. destruct (lTip x) as [k|]; [|discriminate].
+  intros HE. inversion HE; subst. exists k. repeat split.
+Qed.
+
+Lemma do_recv_rev_ok x x' :
+  do_recv_rev x = (Ok, x') -> exists k, rTip x = Some k /\ x' = recv_rev x k.
+Proof.
+  unfold do_recv_rev. destruct (rTip x) as [k|]; [|discriminate].
+  intros HE. inversion HE; subst. exists k. repeat split.
+Qed.
+
+Lemma init_commit_good S H o k : init_commit c o = Some k ->
+  good S H [] [] k /\ n_of S k = 0 /\ n_of H k = 0.
+Proof.
+  unfold init_commit. intros HK. pose proof (commit_of_inv _ _ _ _ _ _ _ _ HK) as HI.
+  destruct HI as [gA [gB [_ [_ HI]]]]. cbv zeta in HI.
+  destruct HI as [_ [_ [_ [Ho [Hh [HnA [HnB _]]]]]]].
+  unfold good. rewrite Ho, Hh, HnA, HnB.
+  assert (E : forall b, n_of b k = 0) by (intros [|]; cbn; assumption).
+  rewrite !E. destruct S; cbn [sel length]; repeat split; try exact HK; lia.
+Qed.
+
+Lemma inv_init s0 : init_sys c = Some s0 -> Inv s0.
+Proof.
+  unfold init_sys, init_party. cbn [negb].
+  destruct (init_commit c true) as [ka|] eqn:HA; [|discriminate].
+  destruct (init_commit c false) as [kb|] eqn:HB; [|discriminate].
+  intros HE. inversion HE; subst s0; clear HE.
+  assert (EA : forall b, n_of b ka = 0).
+  { intros b. destruct (init_commit_good b b _ _ HA) as [_ [E _]]. exact E. }
+  assert (EB : forall b, n_of b kb = 0).
+  { intros b. destruct (init_commit_good b b _ _ HB) as [_ [E _]]. exact E. }
+  split; constructor; cbn [pA pB qAB qBA own peer lTail lTip rTail rTip app upds_in upto_rev];
+    try reflexivity; try (constructor; fail); try (intros ? []);
+    try (eapply init_commit_good; eassumption);
+    rewrite ?EA, ?EB; cbn [length]; try lia;
+    try (split; [lia|intros ? ?; discriminate]);
+    apply Ph0; reflexivity.
+Qed.
+
+Lemma inv_step_send s p u : Inv s -> Inv (snd (step c s (OSend p u))).
+Proof.
+  intros HI. destruct HI as [I1 I2]. unfold step.
+  destruct (upd_enabled c p (get s p) u) eqn:HE; [|split; assumption].
+  destruct p; cbn [get set outq set_outq snd pA pB qAB qBA] in *; split.
+  - eapply send_S; try eassumption; reflexivity.
+  - eapply send_H; try eassumption; reflexivity.
+  - eapply send_H; try eassumption; reflexivity.
+  - eapply send_S; try eassumption; reflexivity.
+Qed.
+
+Lemma inv_step_sign s p : Inv s -> Inv (snd (step c s (OSign p))).
+Proof.
+  intros HI. destruct HI as [I1 I2]. unfold step.
+  destruct (do_sign c p (get s p)) as [[r x'] [m|]] eqn:HD;
+    destruct r; try (split; assumption).
+  apply do_sign_ok in HD. destruct HD as [k [HR [HK [-> ->]]]].
+  destruct p; cbn [get set outq set_outq snd pA pB qAB qBA negb] in *; split.
+  - eapply sign_S; try eassumption; reflexivity.
+  - eapply sign_H; try eassumption; reflexivity.
+  - eapply sign_H; try eassumption; reflexivity.
+  - eapply sign_S; try eassumption; reflexivity.
+Qed.
+
+Lemma inv_step_revoke s p : Inv s -> Inv (snd (step c s (ORevoke p))).
+Proof.
+  intros HI. destruct HI as [I1 I2]. unfold step.
+  destruct (do_revoke (get s p)) as [[r x'] [m|]] eqn:HD;
+    destruct r; try (split; assumption).
+  apply do_revoke_ok in HD. destruct HD as [k [HL [-> ->]]].
+  destruct p; cbn [get set outq set_outq snd pA pB qAB qBA negb] in *; split.
+  - eapply revoke_S; try eassumption; reflexivity.
+  - eapply revoke_H; try eassumption; reflexivity.
+  - eapply revoke_H; try eassumption; reflexivity.
+  - eapply revoke_S; try eassumption; reflexivity.
+Qed.
+
+Lemma inv_step_deliver s p : Inv s -> Inv (snd (step c s (ODeliver p))).
+Proof.
+  intros HI. pose proof HI as [I1 I2]. unfold step.
+  destruct (outq s (negb p)) as [|m q] eqn:HQ; [exact HI|].
+  destruct m as [u|k|].
+  - (* update *)
+    destruct p; cbn [get set outq set_outq snd pA pB qAB qBA negb] in *; rewrite HQ in *; split.
+    + eapply dupd_S; try eassumption; reflexivity.
+    + eapply dupd_H; try eassumption; reflexivity.
+    + eapply dupd_H; try eassumption; reflexivity.
+    + eapply dupd_S; try eassumption; reflexivity.
+  - (* signature *)
+    destruct p; cbn [get set outq set_outq snd pA pB qAB qBA negb] in *; rewrite HQ in *.
+    + rewrite (recv_sig_ok true false _ _ _ _ _ eq_refl I2). cbn [snd pA pB qAB qBA]. split.
+      * eapply dsig_S; try eassumption; reflexivity.
+      * eapply dsig_H; try eassumption; reflexivity.
+    + rewrite (recv_sig_ok false true _ _ _ _ _ eq_refl I1). cbn [snd pA pB qAB qBA]. split.
+      * eapply dsig_H; try eassumption; reflexivity.
+      * eapply dsig_S; try eassumption; reflexivity.
+  - (* revocation *)
+    destruct (do_recv_rev (get s p)) as [r x'] eqn:HD. destruct r; try exact HI.
+    apply do_recv_rev_ok in HD. destruct HD as [k [HR ->]].
+    destruct p; cbn [get set outq set_outq snd pA pB qAB qBA negb] in *; rewrite HQ in *; split.
+    + eapply drev_S; try eassumption; reflexivity.
+    + eapply drev_H; try eassumption; reflexivity.
+    + eapply drev_H; try eassumption; reflexivity.
+    + eapply drev_S; try eassumption; reflexivity.
+Qed.
+
+Lemma inv_step s o : Inv s -> Inv (snd (step c s o)).
+Proof.
+  destruct o; [apply inv_step_send|apply inv_step_sign|apply inv_step_revoke|apply inv_step_deliver].
+Qed.
+
+Lemma inv_run ops : forall s, Inv s -> Inv (run c s ops).
+Proof.
+  unfold run. induction ops as [|o ops IH]; intros s HI; cbn [fold_left]; [exact HI|].
+  apply IH. apply inv_step. exact HI.
+Qed.
+
+Definition reachable (s : sys) : Prop :=
+  exists s0 ops, init_sys c = Some s0 /\ s = run c s0 ops.
+
+Lemma inv_reachable s : reachable s -> Inv s.
+Proof. intros [s0 [ops [H0 ->]]]. apply inv_run. apply inv_init. exact H0. Qed.
+
+(* ------------------------------------------------------------------ *)
+(* Part D: consequences of the invariant                               *)
+
+Lemma good_conserved S H lS lH k : cfg_ok c ->
+  amounts_nonneg lS -> amounts_nonneg lH -> good S H lS lH k -> conserved c k.
+Proof.
+  intros HC HS HH [HK _]. destruct S; cbn [sel] in HK;
+  eapply commit_of_conserved; eassumption.
+Qed.
+
+Lemma phase_rtip_good S H xS xH qS qH k :
+  phase S H xS xH qS qH -> rTip xS = Some k -> good S H (own xS) (own xH) k.
+Proof. intros ph HR. ph_cases ph; try congruence; destruct G as [G _]; congruence. Qed.
+
+Lemma phase_ltip_good S H xS xH qS qH k :
+  phase S H xS xH qS qH -> lTip xH = Some k -> good S H (own xS) (own xH) k.
+Proof. intros ph HR. ph_cases ph; try congruence; destruct G as [G _]; congruence. Qed.
+
+Lemma phase_sig_good S H xS xH qS qH k :
+  phase S H xS xH qS qH -> In (MSig k) qS -> good S H (own xS) (own xH) k.
+Proof.
+  intros ph HI. ph_cases ph; try (exfalso; eapply nsig_notin; eassumption).
+  destruct SA as [pre [post [EQ [N1 [N2 _]]]]]. subst qS.
+  apply in_app_or in HI. destruct HI as [HI|[HI|HI]].
+  - exfalso. exact (nsig_notin _ _ N1 HI).
+  - inversion HI; subst. destruct G as [G _]. exact G.
+  - exfalso. exact (nsig_notin _ _ N2 HI).
+Qed.
+
+Lemma inv_conservation s : cfg_ok c -> Inv s ->
+  forall p k, In k (commits_of (get s p)) -> conserved c k.
+Proof.
+  intros HC HI p k HK. destruct (inv_get s HI p) as [I1 I2].
+  destruct I1 as [j1 an nd wa wb gt gl bl m1 ph]. destruct I2 as [j1' an' nd' wa' wb' gt' gl' bl' m1' ph'].
+  unfold commits_of in HK. cbn [In] in HK.
+  destruct HK as [<-|[<-|HK]].
+  - eapply good_conserved; [exact HC| | |exact gl']; assumption.
+  - eapply good_conserved; [exact HC| | |exact gt]; assumption.
+  - apply in_app_or in HK. destruct HK as [HK|HK].
+    + destruct (lTip (get s p)) as [k'|] eqn:HL; [|contradiction].
+      destruct HK as [<-|[]].
+      eapply good_conserved; [exact HC| | |exact (phase_ltip_good _ _ _ _ _ _ _ ph' HL)]; assumption.
+    + destruct (rTip (get s p)) as [k'|] eqn:HR; [|contradiction].
+      destruct HK as [<-|[]].
+      eapply good_conserved; [exact HC| | |exact (phase_rtip_good _ _ _ _ _ _ _ ph HR)]; assumption.
+Qed.
+
+Lemma inv_conservation_inflight s : cfg_ok c -> Inv s ->
+  forall p k, In (MSig k) (outq s p) -> conserved c k.
+Proof.
+  intros HC HI p k HK. destruct (inv_get s HI p) as [I1 I2].
+  destruct I1 as [j1 an nd wa wb gt gl bl m1 ph]. destruct I2 as [j1' an' nd' wa' wb' gt' gl' bl' m1' ph'].
+  eapply good_conserved; [exact HC| | |exact (phase_sig_good _ _ _ _ _ _ _ ph HK)]; assumption.
+Qed.
+
+Lemma inv_agreement s : Inv s -> forall p k q,
+  outq s (negb p) = MSig k :: q -> fst (step c s (ODeliver p)) = Ok.
+Proof.
+  intros HI p k q HQ. destruct (inv_get s HI p) as [I1 I2]. rewrite HQ in I2.
+  unfold step. rewrite HQ.
+  rewrite (recv_sig_ok p (negb p) _ _ _ _ _ eq_refl I2). reflexivity.
+Qed.
+
+Lemma inv_mirror s : Inv s -> quiescent s ->
+  lTail (pA s) = rTail (pB s) /\ rTail (pA s) = lTail (pB s).
+Proof.
+  intros [I1 I2] [_ [_ [_ [RA [_ RB]]]]].
+  destruct I1 as [j1 an nd wa wb gt gl bl m1 ph]. destruct I2 as [j1' an' nd' wa' wb' gt' gl' bl' m1' ph'].
+  split.
+  - ph_cases ph'; try congruence.
+  - ph_cases ph; try congruence.
+Qed.
+
+Lemma phase_window S H xS xH qS qH : phase S H xS xH qS qH ->
+  nsig qS <= 1 /\ (rTip xS = None -> nsig qS = 0 /\ lTip xH = None).
+Proof.
+  intros ph. ph_cases ph.
+  - split; [lia|]. intros _. split; assumption.
+  - destruct SA as [pre [post [EQ [N1 [N2 _]]]]]. subst qS.
+    rewrite nsig_app. cbn [nsig]. split; [lia|]. congruence.
+  - split; [lia|]. congruence.
+  - split; [lia|]. congruence.
+Qed.
+
+Lemma inv_window s : Inv s -> forall p,
+  nsig (outq s p) <= 1 /\
+  (rTip (get s p) = None -> nsig (outq s p) = 0 /\ lTip (get s (negb p)) = None).
+Proof.
+  intros HI p. destruct (inv_get s HI p) as [I1 _]. destruct I1. eapply phase_window. eassumption.
+Qed.
+
+(* ---------- well-formed cuts (T6) ---------- *)
+(* the cut p uses in SignNextCommitment / ReceiveNewCommitment, as (nA, nB) *)
+Definition sign_cut (p : bool) (x : party) : nat * nat :=
+  (sel p (length (own x)) (n_of (negb p) (lTail x)),
+   sel p (n_of (negb p) (lTail x)) (length (own x))).
+Definition recv_cut (p : bool) (x : party) : nat * nat :=
+  (sel p (n_of p (rTail x)) (length (peer x)),
+   sel p (length (peer x)) (n_of p (rTail x))).
+
+Lemma do_sign_cut p x :
+  do_sign c p x =
+  match rTip x with
+  | Some _ => (ErrNoWindow, x, None)
+  | None =>
+    match commit_of c (negb p) (c_h (rTail x) + 1)%Z (logA_of p x) (logB_of p x)
+                    (fst (sign_cut p x)) (snd (sign_cut p x)) with
+    | None => (ErrSanity, x, None)
+    | Some k => (Ok, set_rTip x (Some k), Some (MSig k))
+    end
+  end.
+Proof. reflexivity. Qed.
+
+Lemma do_recv_sig_cut p x k :
+  do_recv_sig c p x k =
+  match commit_of c p (c_h (tip_of (lTail x) (lTip x)) + 1)%Z (logA_of p x) (logB_of p x)
+                  (fst (recv_cut p x)) (snd (recv_cut p x)) with
+  | None => (ErrSanity, x)
+  | Some k' => if commit_eqb k' k then (Ok, set_lTip x (Some k')) else (ErrSigInvalid, x)
+  end.
+Proof. reflexivity. Qed.
+
+Lemma wf_SH S lS lH nS nH :
+  NoDup (parents (firstn nS lS)) -> NoDup (parents (firstn nH lH)) ->
+  (forall i, In i (parents (firstn nH lH)) -> exists a, add_pos lS i = Some a /\ a < nS) ->
+  (forall i, In i (parents (firstn nS lS)) -> exists a, add_pos lH i = Some a /\ a < nH) ->
+  commit_wf (sel S lS lH) (sel S lH lS) (sel S nS nH) (sel S nH nS) = true.
+Proof. destruct S; cbn [sel]; intros; apply commit_wf_intro; assumption. Qed.
+
+Lemma wf_logs S xS xH nS nH :
+  firstn nH (peer xS) = firstn nH (own xH) ->
+  commit_wf (logA_of S xS) (logB_of S xS) (sel S nS nH) (sel S nH nS) =
+  commit_wf (sel S (own xS) (own xH)) (sel S (own xH) (own xS)) (sel S nS nH) (sel S nH nS).
+Proof.
+  intros HF. destruct S; cbn [sel logA_of logB_of]; apply commit_wf_ext; try reflexivity; exact HF.
+Qed.
+
+Lemma sign_cut_wf S H xS xH qS qH : H = negb S ->
+  InvDir S H xS xH qS qH -> InvDir H S xH xS qH qS ->
+  commit_wf (logA_of S xS) (logB_of S xS) (fst (sign_cut S xS)) (snd (sign_cut S xS)) = true.
+Proof.
+  intros HSH [j1 an nd wa wb gt gl bl m1 ph] [j1' an' nd' wa' wb' gt' gl' bl' m1' ph'].
+  unfold sign_cut. cbn [fst snd]. rewrite <- HSH.
+  rewrite (wf_logs S xS xH); [|eapply firstn_prefix; [exact j1'|exact bl']].
+  apply wf_SH.
+  - apply nodup_parents_firstn. exact nd.
+  - apply nodup_parents_firstn. exact nd'.
+  - intros i HI. apply parents_firstn_in in HI. destruct (wa' i HI) as [a [HP _]].
+    exists a. split; [exact HP|]. apply add_pos_bound in HP. exact HP.
+  - intros i HI. apply parents_firstn_in in HI. exact (wa i HI).
+Qed.
+
+Lemma recv_cut_wf S H xS xH qS qH : H = negb S ->
+  InvDir S H xS xH qS qH -> InvDir H S xH xS qH qS ->
+  commit_wf (logA_of S xS) (logB_of S xS) (fst (recv_cut S xS)) (snd (recv_cut S xS)) = true.
+Proof.
+  intros HSH [j1 an nd wa wb gt gl bl m1 ph] [j1' an' nd' wa' wb' gt' gl' bl' m1' ph'].
+  unfold recv_cut. cbn [fst snd].
+  assert (HF : firstn (length (peer xS)) (own xH) = peer xS).
+  { rewrite <- j1'. rewrite firstn_app_le by lia. apply firstn_all. }
+  rewrite (wf_logs S xS xH); [|rewrite HF; apply firstn_all].
+  apply wf_SH.
+  - apply nodup_parents_firstn. exact nd.
+  - apply nodup_parents_firstn. exact nd'.
+  - intros i HI. rewrite HF in HI. apply wb'. rewrite parents_app. apply in_or_app. left. exact HI.
+  - intros i HI. apply parents_firstn_in in HI. destruct (wa i HI) as [a [HP HL]].
+    exists a. split; [exact HP|]. lia.
+Qed.
+
+Lemma inv_wf s : Inv s -> forall p,
+  let x := get s p in
+  commit_wf (logA_of p x) (logB_of p x) (fst (sign_cut p x)) (snd (sign_cut p x)) = true /\
+  commit_wf (logA_of p x) (logB_of p x) (fst (recv_cut p x)) (snd (recv_cut p x)) = true.
+Proof.
+  intros HI p x. destruct (inv_get s HI p) as [I1 I2]. split.
+  - eapply sign_cut_wf; try eassumption; reflexivity.
+  - eapply recv_cut_wf; try eassumption; reflexivity.
+Qed.
+
+(* a refused signature (ErrSanity) is always a money refusal, never a malformed cut *)
+Lemma inv_sign_sanity s : Inv s -> forall p,
+  fst (step c s (OSign p)) = ErrSanity ->
+  let x := get s p in
+  let nA := fst (sign_cut p x) in let nB := snd (sign_cut p x) in
+  exists gA gB, cut_gross c (logA_of p x) (logB_of p x) nA nB = Some (gA, gB) /\
+    (gA < 0 \/ gB < 0 \/
+     (if opener c then gA else gB)
+       <= 1000 * cut_fee c (negb p) (logA_of p x) (logB_of p x) nA nB)%Z.
+Proof.
+  intros HI p HE x nA nB. destruct (inv_wf s HI p) as [HW _].
+  unfold step in HE. rewrite do_sign_cut in HE. fold x in HE, HW.
+  destruct (rTip x); [discriminate|].
+  destruct (commit_of c (negb p) (c_h (rTail x) + 1)%Z (logA_of p x) (logB_of p x)
+              (fst (sign_cut p x)) (snd (sign_cut p x))) eqn:HK; [discriminate|].
+  apply commit_of_none_wf in HK; [|exact HW]. exact HK.
+Qed.
+
+End Invariant.
+
+(* ------------------------------------------------------------------ *)
+(* Statements over reachable states, in the form used by Props_C01.v   *)
+
+Lemma reach_conservation c s : cfg_ok c -> reachable c s ->
+  forall p k, In k (commits_of (get s p)) -> conserved c k.
+Proof. intros HC HR. apply inv_conservation; [exact HC|apply inv_reachable; exact HR]. Qed.
+
+Lemma reach_conservation_inflight c s : cfg_ok c -> reachable c s ->
+  forall p k, In (MSig k) (outq s p) -> conserved c k.
+Proof. intros HC HR. apply inv_conservation_inflight; [exact HC|apply inv_reachable; exact HR]. Qed.
+
+Lemma reach_agreement c s : cfg_ok c -> reachable c s -> forall p k q,
+  outq s (negb p) = MSig k :: q -> fst (step c s (ODeliver p)) = Ok.
+Proof. intros _ HR. apply inv_agreement. apply inv_reachable. exact HR. Qed.
+
+Lemma reach_mirror c s : reachable c s -> quiescent s ->
+  lTail (pA s) = rTail (pB s) /\ rTail (pA s) = lTail (pB s).
+Proof. intros HR. apply (inv_mirror c). apply inv_reachable. exact HR. Qed.
+
+Lemma reach_window c s : reachable c s -> forall p,
+  nsig (outq s p) <= 1 /\
+  (rTip (get s p) = None -> nsig (outq s p) = 0 /\ lTip (get s (negb p)) = None).
+Proof. intros HR. apply (inv_window c). apply inv_reachable. exact HR. Qed.
+
+Lemma reach_wf c s : reachable c s -> forall p,
+  let x := get s p in
+  commit_wf (logA_of p x) (logB_of p x) (fst (sign_cut p x)) (snd (sign_cut p x)) = true /\
+  commit_wf (logA_of p x) (logB_of p x) (fst (recv_cut p x)) (snd (recv_cut p x)) = true.
+Proof. intros HR. apply (inv_wf c). apply inv_reachable. exact HR. Qed.
+
+Lemma reach_sign_sanity c s : reachable c s -> forall p,
+  fst (step c s (OSign p)) = ErrSanity ->
+  let x := get s p in
+  let nA := fst (sign_cut p x) in let nB := snd (sign_cut p x) in
+  exists gA gB, cut_gross c (logA_of p x) (logB_of p x) nA nB = Some (gA, gB) /\
+    (gA < 0 \/ gB < 0 \/
+     (if opener c then gA else gB)
+       <= 1000 * cut_fee c (negb p) (logA_of p x) (logB_of p x) nA nB)%Z.
+Proof. intros HR. apply inv_sign_sanity. apply inv_reachable. exact HR. Qed.
